@@ -96,8 +96,9 @@ func BoundedFormat(in string) string {
 // 123456 (offset 0) can be addressed. After updateRegex with a regex that itself contains
 // operator-like and terminator-like text: readCurrentRegex returns exactly that regex, a second
 // update changes nothing, every other line is byte-identical, and compare says "unchanged"
-// exactly for the stored operand (one changed byte => error).
-//@ directive[C11,C12] bounded BoundedUpdateCompare quick=4 thorough=5 tokens="SecRule A \"@rx old\" \\\n" "SecRule B \"!@rx o\\\"@rx x\" \\ \r\n" "    \"id:123456,\\\n" "    \"id:999999,\\\n" "# c\n" "    t:none\"\n" "\n"
+// exactly for the stored operand (one changed byte => error). Comments that mention the id and
+// a regex that contains the text `id:123456` must not move the addressed line.
+//@ directive[C11,C12] bounded BoundedUpdateCompare quick=4 thorough=5 tokens="SecRule A \"@rx old\" \\\n" "# see id:123456\n" "SecRule B \"!@rx o\\\"@rx x\" \\ \r\n" "    \"id:123456,\\\n" "    \"id:999999,\\\n" "# c\n" "    t:none\"\n" "\n"
 
 func BoundedUpdateCompare(in string) string {
 	zerolog.SetGlobalLevel(zerolog.Disabled)
@@ -107,7 +108,8 @@ func BoundedUpdateCompare(in string) string {
 	// has an @rx operand
 	target := -1
 	for i, l := range lines {
-		if strings.Contains(l, "id:123456") {
+		// the id ACTION of the rule: not a comment that mentions the id, not an @rx operand
+		if strings.Contains(l, "id:123456") && !strings.HasPrefix(strings.TrimLeft(l, " \t"), "#") && !regex.RuleRxRegex.MatchString(l) {
 			target = i - 1
 			break
 		}
@@ -115,7 +117,7 @@ func BoundedUpdateCompare(in string) string {
 	if target < 0 || !regex.RuleRxRegex.MatchString(lines[target]) {
 		return ""
 	}
-	for _, newRegex := range []string{`a|b`, `x\"@rx y\" \z`, `$1${2}`} {
+	for _, newRegex := range []string{`a|b`, `x\"@rx y\" \z`, `$1${2}`, `x id:123456 y`} {
 		p := boundedFile("r.conf", in)
 		updateRegex(p, "123456", 0, newRegex)
 		after, _ := os.ReadFile(p)
